@@ -188,6 +188,7 @@ package heap
 
 //@ func heap.Sort
 //@   property C03 C16
+//@   opt group-hyps
 //@   requires swo(comp)
 //@   ghost ref seq[T] = lambda j int :: data[j]
 //@   ghost perm map[int]int = idmap()
